@@ -149,6 +149,7 @@ type summary struct {
 	Faults      map[string]int     `json:"faults"`
 	Probes      map[string]int     `json:"probes"`
 	Workloads   map[string]int     `json:"workloads"`
+	Strategies  map[string]int     `json:"strategies"`
 	MapSites    map[string]int     `json:"map_sites"`
 	Decisions   int64              `json:"decisions"`
 	Switches    int64              `json:"switches"`
@@ -404,7 +405,7 @@ func cmdRun(args []string) {
 	}
 
 	// merge
-	total := &summary{Faults: map[string]int{}, Probes: map[string]int{}, Workloads: map[string]int{}, MapSites: map[string]int{}, Extra: map[string]float64{}}
+	total := &summary{Faults: map[string]int{}, Probes: map[string]int{}, Workloads: map[string]int{}, Strategies: map[string]int{}, MapSites: map[string]int{}, Extra: map[string]float64{}}
 	if oomRestarts > 0 {
 		total.Extra["worker_restarts_after_out_of_memory"] = float64(oomRestarts)
 	}
@@ -435,6 +436,9 @@ func cmdRun(args []string) {
 		}
 		for k, v := range s.Workloads {
 			total.Workloads[k] += v
+		}
+		for k, v := range s.Strategies {
+			total.Strategies[k] += v
 		}
 		for k, v := range s.MapSites {
 			total.MapSites[k] += v
